@@ -56,6 +56,7 @@ def run(chk):
                 names = [a.value for a in n.value.args if isinstance(a, ast.Constant) and str(a.value).startswith("--")]
                 helpers[q] = (names[0][2:].replace("-", "_") if names else None, _click_path_kwargs(n.value))
     n_cmd = 0
+    n_dir = [0]
     for q, f in src.funcs.items():
         if not q.startswith(CLI) or f.parent is not None:
             continue
@@ -82,7 +83,27 @@ def run(chk):
             chk.decide(not creates, "option-constraint-agrees-with-consumer", q, f"option `{pname}` is declared exists=True but the command "
                        f"creates it (`{ast.unparse(creates[0]) if creates else ''}`): on a fresh destination, and for the default one, click refuses "
                        f"before the command runs", where=f.where, instance=pname)
+        # a parameter the command uses as a DIRECTORY (creates it, or joins file names onto it) must be allowed to be one, present or
+        # not: click validates the value - the default too - before the command body runs
+        for pname, kw in opts.items():
+            if kw is None:
+                continue
+            mk = [n for n in E.own_nodes(f.node) if isinstance(n, ast.Call) and isinstance(n.func, ast.Attribute) and n.func.attr == "mkdir"
+                  and ast.unparse(n.func.value) == pname]
+            joins = [n for n in E.own_nodes(f.node) if isinstance(n, ast.BinOp) and isinstance(n.op, ast.Div) and ast.unparse(n.left) == pname]
+            if not mk and not joins:
+                continue
+            n_dir[0] += 1
+            chk.decide(kw.get("dir_okay") != "False", "option-constraint-agrees-with-consumer", q, f"option `{pname}` is declared dir_okay=False "
+                       f"but the command uses it as a directory: an existing destination (the default one after a first call) is refused by "
+                       f"click before the command runs", where=f.where, instance=pname + ":dir")
+            for n in mk:
+                kws = {k.arg: ast.unparse(k.value) for k in n.keywords}
+                chk.decide(kws.get("exist_ok") == "True" and kws.get("parents") == "True", "option-constraint-agrees-with-consumer", q,
+                           f"`{ast.unparse(n)}`: the destination must be creatable when it is present already (exist_ok=True) and when it is "
+                           f"nested (parents=True)", where=f"{f.module.relpath}:{n.lineno}", instance=pname + ":mkdir")
     chk.floor("click commands", n_cmd, 3)
+    chk.floor("directory-valued options", n_dir[0], 1)
     fex = src.func(f"{CLI}.runcards.sub_example")
     chk.need(any(h[0] == "destination" for h in helpers.values()), "the destination option helper vanished")
     # ---- (2) example writes normalised cards into the destination ---------------------------------------------------------------
